@@ -107,3 +107,21 @@ package dynblock
 //@ nosafety
 //@ ensures cleanLabels: ret0 != nil ==> (forall j int :: { ret0.Labels[j] } 0 <= j && j < len(ret0.Labels) ==> clean(ret0.Labels[j]))
 //@ loop 1 invariant forall j int :: { labels[j] } 0 <= j && j < len(labels) ==> clean(labels[j])
+
+// ---- expressions inside expanded blocks (unit U13b, C18) ----
+// verif:unit U13b props=C18,C06
+// An expression inside a generated block is evaluated in a child of the caller's context in which
+// every iterator name the expression mentions denotes the right iterator object: the block's own
+// iterator (which shadows an inherited one of the same name), otherwise the inherited one; and the
+// child binds nothing but iterator names. The marks of the for_each value are put on the result.
+// mentions(e, k): expression e refers to the root name k (uninterpreted).
+// verif:specfunc mentions(e hcl.Expression, k string) bool
+// verif:pred iterCtxFor(c *hcl.EvalContext, i *iteration, base *hcl.EvalContext, e hcl.Expression) = c != nil && c.parent == base && (has(c.Variables, i.IteratorName) && c.Variables[i.IteratorName] == iterObj(i.Key, i.Value) || !mentions(e, i.IteratorName)) && (forall k string :: { has(i.Inherited, k) } mentions(e, k) && k != i.IteratorName && has(i.Inherited, k) ==> has(c.Variables, k) && c.Variables[k] == iterObj(i.Inherited[k].Key, i.Inherited[k].Value)) && (forall k string :: { has(c.Variables, k) } has(c.Variables, k) ==> k == i.IteratorName || has(i.Inherited, k))
+// verif:func (exprWrap).prepareValue
+//@ pure
+//@ ensures ret0 == withMarksOf(val, e.resultMarks) && ret1 === diags
+// verif:func (exprWrap).Value
+//@ nosafety
+//@ requires e.i != nil ==> (forall k string :: has(e.i.Inherited, k) ==> e.i.Inherited[k] != nil)
+//@ ensures plain: e.i == nil ==> ret0 == withMarksOf(exprVal(e.Expression, ctx), e.resultMarks)
+//@ ensures scoped: e.i != nil ==> (exists c *hcl.EvalContext :: { exprVal(e.Expression, c) } iterCtxFor(c, e.i, ctx, e.Expression) && ret0 == withMarksOf(exprVal(e.Expression, c), e.resultMarks))
